@@ -269,9 +269,10 @@ class Gen:
                     good = [a for a in pool if decl in self.anc(self.type[a])]
                     if r.random() < 0.15 or not good: good = pool         # wrong types sometimes
                     n = r.randint(1, min(len(good), 3))
+                    if r.random() < 0.06: n = 0            # an empty side (accepted by the toolbox)
                     if mx is not None and r.random() < 0.15: n = min(len(good), mx + 1)
                     sel = r.sample(good, n)
-                    if r.random() < 0.05: sel.append(sel[0])
+                    if sel and r.random() < 0.05: sel.append(sel[0])
                     return sel
                 left = pick(assoc['leftAsset'], assoc['leftMultiplicity']['max'])
                 right = pick(assoc['rightAsset'], assoc['rightMultiplicity']['max'])
